@@ -135,6 +135,13 @@ type lookupTagAndType func(tag tag, t msgType) (message, error)
 //
 // The tag value NoTag will always be returned if err is non-nil.
 func recv(l ulog.Logger, r io.Reader, msize uint32, lookup lookupTagAndType) (tag, message, error) {
+	return recvLimit(l, r, func() uint32 { return msize }, lookup)
+}
+
+// recvLimit is recv with a size limit that is evaluated when a header has
+// arrived, not when the call starts waiting for one: a receiver may sit in
+// this call while the limit is being negotiated.
+func recvLimit(l ulog.Logger, r io.Reader, limit func() uint32, lookup lookupTagAndType) (tag, message, error) {
 	// Read a header.
 	var hdr [headerLength]byte
 
@@ -153,7 +160,7 @@ func recv(l ulog.Logger, r io.Reader, msize uint32, lookup lookupTagAndType) (ta
 		// See above: it's probably screwed.
 		return noTag, nil, ConnError{ErrNoValidMessage}
 	}
-	if size > maximumLength || size > msize {
+	if msize := limit(); size > maximumLength || size > msize {
 		// The message is too big.
 		return noTag, nil, ConnError{&ErrMessageTooLarge{size, msize}}
 	}
